@@ -23,6 +23,10 @@ package main
 //     model JV.marshal, text for text, repeated in fresh VMs and processes; every callable of E x {map of unmarshalable values,
 //     heterogeneous set}; site probes for modules/exec (parameter map, env map) and modules/http (header names that differ in case).
 //  F. (c05render.go) object graphs of every object type rendered through every printing route against the Lean render model.
+//  H. (c05select.go) the choosing loop of VirtualOS.findMount: nested mount tables x paths x script-level and host-level file operations,
+//     which mount serves the access against the Lean model findMount, repeated with fresh maps.
+//  I. (c05select.go) HashKey() of every hashable type incl. long byte slices and strings against HV.key; set listings against setListing,
+//     the sorted-by-value law, and scripts over such sets in fresh processes.
 
 import (
 	"bufio"
@@ -737,7 +741,7 @@ func c05RunChildren(srcs []string, n int) [][]c05Obs {
 	return out
 }
 
-var c05LocalNames = regexp.MustCompile(`\b(qf|qg|qh|qb|qe|qi|qj|qn|qo|qt|qu|qc|qy)\b`)
+var c05LocalNames = regexp.MustCompile(`\b(qf|qg|qh|qb|qe|qi|qj|qn|qo|qt|qu|qc|qy|qv)\b`)
 
 // prelude pieces.  big = contains a map literal with >= 2 entries (outside the guard).
 type c05Piece struct {
@@ -805,6 +809,11 @@ func c05Prelude(r *RNG, allowBig bool) (string, bool, []string) {
 			add("print-chan-entry", false, "qc := chan(%d)\nqy := iter(qm)\nqy.next()\nprint(qc, qy.entry(), [qc, qy.entry()], sprintf(\"%%v %%s\", qc, qy.entry()), string(errorf(\"e %%v\", qc)), string(qc), '{qc} {qy.entry()}')", pos()%4)
 		case 20:
 			add("print-iterators-callables", false, "print(iter(qs), iter(qm), iter(3), iter(\"ab\"), [len, math, qm.keys, func(a, b=1) { return a }], sprintf(\"%%v|%%v|%%v\", len, math, iter(qs)), string(errors.new(\"n %%v %%v\", chan(), iter([chan(1)]))))")
+		case 21:
+			// members longer than 32 bytes that agree on their first 40: their order in the set is the order of their whole contents
+			stem := strings.Repeat(Pick(r, []string{"k", "ab", "stem/"}), 40)[:40]
+			add("long-members-set", false, "qv := {byte_slice(%q), byte_slice(%q), byte_slice(%q), %q, %q}\nfor x in qv { print(x) }\nprint(qv, list(qv), json.marshal(qv), qv == qv)",
+				stem+key()+"2", stem+key()+"1", stem, stem+"b", stem+"a")
 		}
 		if !allowBig {
 			continue
@@ -2550,6 +2559,15 @@ func c05_runC05(e *Env) {
 		"failures in two inner maps, a set with +Inf and -Inf); every callable of E plus 20 module functions x {map of 8 unmarshalable/unsummable values, heterogeneous set of 10} " +
 		"at every argument position; exec() with 1-5 parameter keys / env values of which 1-5 are invalid against firstFailure, the child's environment order, http.request " +
 		"headers with names that differ in case against headerValues; non-trivial when >= 2 elements fail; " +
+		"H: mount tables of 1-6 mount points, most of them nested (/, /data, /data/sub, /data/sub/deep, with and without a trailing slash, string-prefix neighbours such as /data2), " +
+		"registered in a random order, working directories at and below mount points, paths below the innermost mount, exactly on a mount point, relative, with .., . and a trailing slash; " +
+		"every mount's Source records its calls, so which mount serves os.read_file/write_file/stat/remove/remove_all/mkdir/mkdir_all/read_dir/rename/symlink in a script (55 %) or the " +
+		"VirtualOS method called by the host, and the path it is handed, is compared with the model's findMount and repeated 16-48 times with a fresh mount map and a fresh VirtualOS; " +
+		"12 % of the tables (<= 4 mounts) spell Mount.Target unlike the key (empty, trailing slash): there the model is asked under every visiting order (finding C05-findmount-target-length); " +
+		"non-trivial when >= 2 mount points qualify for the path; I: sets of 2-32 hashable values at least two of which are byte slices or strings of 15-200 bytes (lengths around 16/32/33/64/65, " +
+		"70 % sharing a 32-48 byte stem, printable and arbitrary bytes), next to short byte slices, bytes 0-255, ints up to 2^40, floats, bools, nil: HashKey() of every member against HV.key, " +
+		"SortedItems/Iter/Inspect/List against setListing, the law 'listed in ascending order of the values' on the real listing, and 60 % of the sets (<= 12 members) built, iterated, printed, " +
+		"converted (string, list, json.marshal, sprintf) by a script evaluated 2-8 times in-process and once in each of 4-16 fresh processes; non-trivial when >= 2 members are longer than 32 bytes; " +
 		"module-defined and OS-backed objects and error messages about such objects by repetition and the pointer rule only. A case is one program / one probe input; " +
 		"distinct by its text; non-trivial when it contains a map/set literal, a default argument or a map/set iteration (all A and B programs do), " +
 		"or, for probes, when the map has >= 2 entries. 7 of 8 programs stay inside the guard NoBigMap."
@@ -2559,23 +2577,33 @@ func c05_runC05(e *Env) {
 	}
 	// the targeted probes run first: their cases are the smallest, and the first violation recorded
 	// becomes the replay
+	// streams H and I (c05select.go): the choosing loop of VirtualOS.findMount over nested mount
+	// tables; hash keys and listings of sets of long byte slices / strings, also in fresh processes
+	// wall time per stream goes into the evidence as a note (supporting numbers, never a verdict)
+	timed := func(name string, f func()) {
+		t0 := time.Now()
+		f()
+		e.R.Note("stream %s: %.1fs", name, time.Since(t0).Seconds())
+	}
+	timed("c05SiteMounts", func() { c05SiteMounts(e, min(nSite, 600), min(reps*2, 48)) })
+	timed("c05HashKeys", func() { c05HashKeys(e, min(nSite, 600), min(reps, 32), kids) })
 	// stream G (c05walk.go): containers with several failing elements
-	c05WalkMarshal(e, min(nSite*2/3, 600), min(reps, 24), kids)
-	c05WalkSites(e, min(nSite/4, 300), min(reps*2, 32))
-	c05Render(e, nSite*2, reps, kids)
-	c05RenderOpaque(e, reps)
-	c05SiteSorted(e, nSite)
-	c05SiteSetOrder(e, nSite*2, reps*2)
-	c05SiteSetNaNScript(e, reps*4)
-	c05SiteSortedBy(e, nSite, reps)
-	c05ConfigModules(e, nSite/3, reps*2)
-	c05SiteEnviron(e, nSite/3, reps*2)
-	c05SiteFirstFailure(e, nSite/3, reps*2)
-	c05SiteOverrides(e, nSite/5, reps*2)
-	c05SiteMockFS(e, nSite/5, reps*4)
-	c05Config(e, nSite/10, reps)
-	c05BuiltinArgs(e, reps)
-	c05WalkCallables(e, min(reps, 32)*3/4)
-	c05Fragments(e, nFrag, reps)
-	c05General(e, nGen, reps, kids)
+	timed("c05WalkMarshal", func() { c05WalkMarshal(e, min(nSite*2/3, 600), min(reps, 24), kids) })
+	timed("c05WalkSites", func() { c05WalkSites(e, min(nSite/4, 300), min(reps*2, 32)) })
+	timed("c05Render", func() { c05Render(e, nSite*2, reps, kids) })
+	timed("c05RenderOpaque", func() { c05RenderOpaque(e, reps) })
+	timed("c05SiteSorted", func() { c05SiteSorted(e, nSite) })
+	timed("c05SiteSetOrder", func() { c05SiteSetOrder(e, nSite*2, reps*2) })
+	timed("c05SiteSetNaNScript", func() { c05SiteSetNaNScript(e, reps*4) })
+	timed("c05SiteSortedBy", func() { c05SiteSortedBy(e, nSite, reps) })
+	timed("c05ConfigModules", func() { c05ConfigModules(e, nSite/3, reps*2) })
+	timed("c05SiteEnviron", func() { c05SiteEnviron(e, nSite/3, reps*2) })
+	timed("c05SiteFirstFailure", func() { c05SiteFirstFailure(e, nSite/3, reps*2) })
+	timed("c05SiteOverrides", func() { c05SiteOverrides(e, nSite/5, reps*2) })
+	timed("c05SiteMockFS", func() { c05SiteMockFS(e, nSite/5, reps*4) })
+	timed("c05Config", func() { c05Config(e, nSite/10, reps) })
+	timed("c05BuiltinArgs", func() { c05BuiltinArgs(e, reps) })
+	timed("c05WalkCallables", func() { c05WalkCallables(e, min(reps, 32)*3/4) })
+	timed("c05Fragments", func() { c05Fragments(e, nFrag, reps) })
+	timed("c05General", func() { c05General(e, nGen, reps, kids) })
 }
